@@ -65,6 +65,11 @@ def long_file(rng):
     lines.append('UNIT ' + ' '.join(['16', '20', '4', '2', '1', '1'][:nun]))
     for _ in range(rng.randint(0, 2)):
         lines.append(('REM ' + ' '.join(rng.choice(['remark', 'well-known', 'x', 'semi-empirical', 'b' * rng.randint(1, 25)]) for _ in range(20)))[:rng.choice([30, 72, 78, 79, 80])].rstrip())
+    if rng.random() < 0.25:
+        # a DSR command in a remark is continued like an instruction (the library reads it as one)
+        dsr = ['REM', 'DSR', rng.choice(['PUT', 'REPLACE']), 'TOLUENE', 'WITH'] + rng.sample(names, 3) + ['ON'] + rng.sample(names, 3) + ['PART', '1', 'OCC', '-21', 'RESI', 'TOL', 'DFIX']
+        cut = rng.randint(6, 12)
+        lines += [' '.join(dsr[:cut]) + ' =', '   ' + ' '.join(dsr[cut:])]
     body = []
     kinds = ['SADI', 'FLAT', 'SIMU', 'EADP', 'RIGU', 'DELU', 'DFIX', 'SAME', 'CHIV', 'ISOR', 'EXYZ', 'OMIT', 'CONF', 'MPLA', 'BIND', 'FREE', 'HTAB', 'BOND']
     for _ in range(rng.randint(2, 8)):
@@ -81,7 +86,14 @@ def long_file(rng):
         body.append(toks)
     osf = rng.choice([1.0, 1.0, rng.uniform(0.11111, 1.99999)])        # the overall scale factor is seldom exactly one: lines of full width
     fv = ['%.5f' % (osf if i == 0 else rng.uniform(0.05, 0.95)) for i in range(nfv)]
-    if rng.random() < 0.5:
+    one_line = nfv <= 9 and rng.random() < 0.6
+    if one_line:
+        lines.append('FVAR ' + ' '.join(fv))        # up to nine free variables fit on one line of 80 columns
+        if rng.random() < 0.6:
+            # ... directly followed by a wrapped instruction the library keeps as text
+            n_ = rng.randint(16, min(natoms, 40)) if natoms >= 16 else natoms
+            lines += wrap_input(['OMIT'] + rng.sample(names, n_), rng, width=rng.choice([60, 76, 79]))
+    elif rng.random() < 0.5:
         lines += wrap_input(['FVAR'] + fv, rng)
     else:
         for i in range(0, nfv, 7):
